@@ -9,6 +9,7 @@ import (
 	"fmt"
 	"io"
 	"net"
+	"strings"
 	"sync"
 	"sync/atomic"
 	"time"
@@ -20,6 +21,7 @@ import (
 	"tunnox-core/internal/protocol/session"
 	"tunnox-core/internal/protocol/session/tunnel"
 	"tunnox-core/internal/stream"
+	"tunnox-core/verifharness/doubles"
 	"tunnox-core/verifharness/fw"
 )
 
@@ -110,6 +112,7 @@ type end struct {
 	rTaken   int
 	wTaken   int
 	armed    bool
+	stalled  bool   // the end does not drain: a Write to it parks until it drains again, goes away or is closed
 	glitch   string // "" | "t0": the next Read returns (0, timeout) | "tn": the next Read with bytes returns (n, timeout)
 }
 
@@ -246,6 +249,12 @@ func (c *fakeConn) Write(p []byte) (int, error) {
 	e.wTaken++
 	w.progress.Add(1)
 	defer w.cond.Broadcast()
+	for e.stalled && !c.failed && !c.inEOF && !c.closed { // back-pressure: the end's receive window is full
+		w.cond.Wait()
+	}
+	if c.closed {
+		return 0, errClosed
+	}
 	if c.failed || c.inEOF {
 		return 0, errPipe
 	}
@@ -372,6 +381,7 @@ type beh struct {
 	FinK  string `json:"fin_k"`
 	Drain bool   `json:"drain"`           // free mode: wait for quiescence before the scripted ending
 	Big   int    `json:"big"`             // real size of class "big"
+	Route bool   `json:"route,omitempty"` // the server has a tunnel routing table (cluster deployment)
 	Loops int    `json:"loops,omitempty"` // a racy free-running script is executed this many times (the last run is recorded)
 }
 
@@ -427,6 +437,48 @@ func (r *run) bridgeGone() bool {
 		}
 	}
 	return false
+}
+
+// within runs f and waits for it at most d (a call into the code under test that hangs is left behind).
+func within(d time.Duration, f func()) bool {
+	done := make(chan struct{})
+	go func() { defer close(done); f() }()
+	select {
+	case <-done:
+		return true
+	case <-time.After(d):
+		return false
+	}
+}
+
+func (r *run) anyStalled() bool {
+	r.w.mu.Lock()
+	defer r.w.mu.Unlock()
+	return r.w.ends["S"].stalled || r.w.ends["T"].stalled
+}
+
+func (r *run) unstall() {
+	r.w.mu.Lock()
+	for _, e := range r.w.ends {
+		if e.stalled {
+			e.stalled = false
+			r.w.log(fw.Event{"ev": "Env", "a": "unstall", "e": e.name})
+		}
+	}
+	r.w.cond.Broadcast()
+	r.w.mu.Unlock()
+}
+
+// stalledPeerOf returns the stalled end when the OTHER end is the one that closed or failed.
+func (r *run) stalledPeerOf() string {
+	r.w.mu.Lock()
+	defer r.w.mu.Unlock()
+	for n, e := range r.w.ends {
+		if e.stalled && len(e.conns) > 0 && r.w.ender == other(n) {
+			return n
+		}
+	}
+	return ""
 }
 
 func (r *run) ungate() {
@@ -583,8 +635,13 @@ func (r *run) gate(e string, read bool) {
 }
 
 func execute(env *fw.Env, b *beh) *fw.Trace {
+	start := time.Now()
 	for i := 1; i < b.Loops; i++ {
-		if t := executeOnce(env, b); t.Status != fw.Realised {
+		t0 := time.Now()
+		t := executeOnce(env, b)
+		// a run that is not realised, or that took long (something did not happen within its watchdog),
+		// is the one to be judged; the repetition only exists to catch a scheduling race of ~1 ms runs
+		if t.Status != fw.Realised || time.Since(t0) > time.Second || time.Since(start) > 20*time.Second {
 			return t
 		}
 	}
@@ -615,7 +672,19 @@ func executeOnce(env *fw.Env, b *beh) *fw.Trace {
 	defer close(stop)
 
 	r.sm = session.NewSessionManager(nil, ctx)
-	defer r.sm.Close()
+	defer within(2*time.Second, func() { r.sm.Close() })
+	routeDown := &atomic.Bool{}
+	if b.Route {
+		// the routing table lives in a shared store; its deletes can be made to fail (store unreachable)
+		st := doubles.NewStore("route", nil)
+		st.Fault = func(c *doubles.Call) error {
+			if routeDown.Load() && c.Op == "Delete" && strings.HasPrefix(c.Key, "tunnox:tunnel_waiting:") {
+				return doubles.ErrInjected
+			}
+			return nil
+		}
+		r.sm.SetTunnelRoutingTable(session.NewTunnelRoutingTable(st, 0))
+	}
 	cloud := &fakeCloud{mapping: &models.PortMapping{ID: mappingID, ListenClientID: srcClient, TargetClientID: dstClient}}
 	cloud.mapping.Config.BandwidthLimit = realLimit(b.Lim)
 	r.sm.SetCloudControl(cloud)
@@ -655,7 +724,7 @@ func executeOnce(env *fw.Env, b *beh) *fw.Trace {
 		}
 		w.cond.Broadcast()
 		w.mu.Unlock()
-		br.Close()
+		within(2*time.Second, func() { br.Close() }) // (a Close that hangs must not take the worker with it)
 	}()
 
 	timedOut := false
@@ -700,7 +769,7 @@ func executeOnce(env *fw.Env, b *beh) *fw.Trace {
 			if st.E == "T" {
 				r.targetConn()
 			}
-			if b.Mode == "free" && b.Drain && r.attached() && b.Lim != "slow" {
+			if b.Mode == "free" && b.Drain && r.attached() && b.Lim != "slow" && !r.anyStalled() {
 				r.drain()
 			}
 			if b.Mode == "free" && b.Lim == "slow" {
@@ -722,6 +791,18 @@ func executeOnce(env *fw.Env, b *beh) *fw.Trace {
 			w.log(fw.Event{"ev": "Env", "a": "glitch", "e": st.E, "k": k})
 			w.cond.Broadcast()
 			w.mu.Unlock()
+		case "stall", "unstall":
+			if st.E == "T" {
+				r.targetConn()
+			}
+			w.mu.Lock()
+			w.ends[st.E].stalled = st.A == "stall"
+			w.log(fw.Event{"ev": "Env", "a": st.A, "e": st.E})
+			w.cond.Broadcast()
+			w.mu.Unlock()
+		case "routefail":
+			routeDown.Store(true)
+			w.logL(fw.Event{"ev": "Env", "a": "routefail"})
 		case "replace":
 			w.mu.Lock()
 			// clean handover: nothing the source wrote on the old connection is still unread there
@@ -742,7 +823,7 @@ func executeOnce(env *fw.Env, b *beh) *fw.Trace {
 			w.mu.Lock()
 			w.markEnded("-", "bridge")
 			w.mu.Unlock()
-			br.Close()
+			go br.Close() // a third party's call: whether it returns is not this script's business
 		case "timeout":
 			// Start's 30 s timer: only driven when the script ends here (thorough tier)
 			if i != len(b.Steps)-1 {
@@ -771,6 +852,25 @@ func executeOnce(env *fw.Env, b *beh) *fw.Trace {
 	w.mu.Lock()
 	ended := w.ended
 	w.mu.Unlock()
+	nudgeAt := time.Time{}
+	if ended == "none" {
+		r.unstall() // the end resumes reading: what was parked must still arrive
+	} else if e := r.stalledPeerOf(); e != "" {
+		// An end does not drain and the other end is gone: the bridge sits in a Write and has had no
+		// occasion to notice. The stalled end now writes one byte - the bridge touches the dead end.
+		time.Sleep(20 * time.Millisecond)
+		w.mu.Lock()
+		en := w.ends[e]
+		if c := en.cur(); !c.closed && !c.inEOF && !c.failed {
+			dir := outOf(e)
+			w.log(fw.Event{"ev": "Send", "e": e, "dir": dir, "n": 1})
+			c.in = append(c.in, fill(tagOf(dir), en.sendOff, 1))
+			en.sendOff++
+			nudgeAt = time.Now()
+			w.cond.Broadcast()
+		}
+		w.mu.Unlock()
+	}
 	if ended == "none" {
 		r.drain()
 		w.mu.Lock()
@@ -789,6 +889,9 @@ func executeOnce(env *fw.Env, b *beh) *fw.Trace {
 	}
 	if b.Mode == "gated" && ungateAt.After(t0) {
 		t0 = ungateAt
+	}
+	if nudgeAt.After(t0) {
+		t0 = nudgeAt
 	}
 	w.mu.Unlock()
 	deadline := t0.Add(watchdog)
